@@ -132,3 +132,14 @@ PROPS["C14"] = dict(
         "terms are well-formed (C02) and a parsed value is only attached to a literal",
     ],
 )
+
+PROPS["C17"] = dict(
+    level="proof", runs=[dict(bin="c17")],
+    quick=dict(n=600, shards=16),
+    thorough=dict(n=20000, shards=64, run_timeout=3000, coq_case_timeout=3000),
+    trusted_base=[
+        "model coq/C17/Model.v of iri/src/relativize.rs and of oxiri 0.2.11 IriParser (positions, resolution) behind sophia_iri::resolve::BaseIri, hand-written over UTF-8 bytes; RFC 3986 5.2 transcribed as resolve_rfc",
+        "oxiri's character-level validation is not modelled (the harness feeds valid IRIs/references only)",
+    ],
+    assumptions=["inputs are valid IRIs (for no-panic: well-formed UTF-8, which &str guarantees)"],
+)
